@@ -55,17 +55,22 @@ def cell(v):
     return str(v)
 
 
-def read_frame(out):
+def read_frame(out, labels=None):
+    """the frame by position; cells are shown through str() for the Coq side, but every column holding a cell that is not a
+    Python str is listed (with the type names) in nonstr_columns, which the harness judges"""
     names = [str(c) for c in out.columns]
     cols = []
-    nonstr = []
+    nonstr = {}
     for j in range(out.shape[1]):
         vals = out.iloc[:, j].tolist()
-        if any(not isinstance(v, str) for v in vals):
-            nonstr.append(names[j])
+        bad = sorted({type(v).__name__ for v in vals if not isinstance(v, str)})
+        if bad:
+            nonstr[str(j)] = [names[j], bad]
         cols.append([cell(v) for v in vals])
-    index_ok = list(out.index) == list(range(len(out.index)))
-    return {"names": names, "cols": cols, "index_ok": bool(index_ok), "nrows": int(out.shape[0]), "nonstr_columns": nonstr}
+    expect = list(range(len(out.index))) if labels is None else list(labels)
+    index_ok = list(out.index) == expect
+    return {"names": names, "cols": cols, "index_ok": bool(index_ok), "nrows": int(out.shape[0]),
+            "nonstr_columns": [[int(j)] + v for j, v in nonstr.items()]}
 
 
 def reset_globals():
@@ -140,19 +145,21 @@ def run_case(case):
     if not keep:
         reset_globals()
     np.random.seed(case.get("np_seed", 0))
-    df = pd.DataFrame(case["rows"], columns=case["names"])
+    # default: the RangeIndex compute_batch_ranking builds; "index" (direct constructor probes only): other row labels
+    df = pd.DataFrame(case["rows"], columns=case["names"], index=case.get("index"))
+    labels = list(df.index)
     args = base_args(case)
     kind = case["kind"]
     if kind == "multivalue":
-        return read_frame(cr.compute_expanded_multivalue_features(df, FakeLog(), args, FakeBar()))
+        return read_frame(cr.compute_expanded_multivalue_features(df, FakeLog(), args, FakeBar()), labels)
     if kind == "sub":
-        return read_frame(cr.compute_subfeatures(df, FakeLog(), args, FakeBar()))
+        return read_frame(cr.compute_subfeatures(df, FakeLog(), args, FakeBar()), labels)
     if kind == "combined":
-        return read_frame(cr.compute_combined_features(df, args, FakeBar(), bool(case.get("is3mr", False))))
+        return read_frame(cr.compute_combined_features(df, args, FakeBar(), bool(case.get("is3mr", False))), labels)
     if kind == "transform":
-        return read_frame(cr.enrich_with_transformations(df, set(case["numeric"]), FakeLog(), args))
+        return read_frame(cr.enrich_with_transformations(df, set(case["numeric"]), FakeLog(), args), labels)
     if kind == "noise":
-        return read_frame(cr.include_noisy_features(df, FakeLog(), args))
+        return read_frame(cr.include_noisy_features(df, FakeLog(), args), labels)
     if kind == "batch":
         o = {}
         numeric = set(case.get("numeric", []))
